@@ -590,15 +590,16 @@ def _idx(sorted_seq, p):
     return cur().decls.fun("index_String", [has.sort, STR], INT)(has, S(p))
 
 
-def _filter_inv(name, src_name):
-    """Loop `name = [p for p in <sorted set> if self._check_declaration(step, p, role)]`: every kept path is
-    unclaimed, comes from a position before i of the sorted input, and positions ascend (so paths are distinct)."""
+def _filter_inv():
+    """Loop `kept = [p for p in <sorted set> if self._check_declaration(step, p, role)]` (or the same written as a
+    loop that appends): every kept path is unclaimed, comes from a position before i of the sorted input, and
+    positions ascend (so paths are distinct).  The kept list and the input are named by role (e.acc, e.seq)."""
 
     def inv(e):
-        kept = getattr(e, name)
+        kept = e.acc
         if not isinstance(kept, sym.SymSeq):
             return True
-        src = getattr(e, src_name)
+        src = e.seq
         db = common.db_of(e.self)
         k, m = I(e.q.k), I(e.q.m)
         p, later = kept.elem(k), kept.elem(m)
@@ -654,10 +655,8 @@ class wf_amend_step:
     loops = {0: LoopSpec(locals=dict(unavailable=ty.SetOf(ty.Str), unfresh=ty.SetOf(ty.Str), unconfirmed=ty.SetOf(FileH),
                                      dynamic_ideps=_DYN),
                          step_post=_amend_iter_post),
-             1: LoopSpec(locals=dict(out_paths=ty.SeqOf(ty.Str)), forall=dict(k=ty.Int, m=ty.Int),
-                         invariant=_filter_inv("out_paths", "comp1_iter")),
-             2: LoopSpec(locals=dict(vol_paths=ty.SeqOf(ty.Str)), forall=dict(k=ty.Int, m=ty.Int),
-                         invariant=_filter_inv("vol_paths", "comp2_iter")),
+             1: LoopSpec(locals={"@acc": ty.SeqOf(ty.Str)}, forall=dict(k=ty.Int, m=ty.Int), invariant=_filter_inv()),
+             2: LoopSpec(locals={"@acc": ty.SeqOf(ty.Str)}, forall=dict(k=ty.Int, m=ty.Int), invariant=_filter_inv()),
              3: LoopSpec(locals=dict(dynamic_ideps=_DYN), forall=dict(k=ty.Int, m=ty.Int), invariant=_out_loop_inv,
                          havoc=("self",), modifies={"self": ["db"]}),
              4: LoopSpec(locals=dict(dynamic_ideps=_DYN), forall=dict(k=ty.Int, m=ty.Int), invariant=_vol_loop_inv,
